@@ -15,6 +15,9 @@ pcbasic/basic/inputs/keyboard.py:
   including) tail, wrapping from 60 to 30; a stored keystroke advances tail by one slot, a
   read advances head by one slot;
 * POKE 1050, PEEK(1052) sets head := tail, i.e. empties the buffer.
+* more generally the waiting keystrokes ARE the slots from head to tail: a POKE that moves the head
+  pointer forward by k slots (k <= waiting) discards the k oldest waiting keystrokes, a POKE that
+  moves the tail pointer back by k slots discards the k newest.
 
 A keystroke is the byte string INKEY$ returns for it: one character, or NUL + code for an
 extended key. The low byte of a slot holds the character; for an extended key the BIOS stores
@@ -100,6 +103,21 @@ class Kbd(object):
         if self.tail is not None:
             self.head = self.tail
         return n
+
+    def skip_head(self, k):
+        """POKE 1050, <head + k slots on the ring>, 0 <= k <= waiting: the k oldest keystrokes leave the buffer."""
+        assert 0 <= k <= len(self.fifo)
+        del self.fifo[:k]
+        if self.head is not None:
+            self.head = next_ptr(self.head, k)
+
+    def pull_tail(self, k):
+        """POKE 1052, <tail - k slots on the ring>, 0 <= k <= waiting: the k newest keystrokes leave the buffer."""
+        assert 0 <= k <= len(self.fifo)
+        if k:
+            del self.fifo[-k:]
+        if self.tail is not None:
+            self.tail = next_ptr(self.tail, RING - k)
 
     # -- BIOS view -------------------------------------------------------------------
     def adopt(self, head, tail):
